@@ -82,6 +82,16 @@ fn replay<C: CellType>(req: &Value) {
                 0
             }
             "check" => mem.check(x1) as i64,
+            // pointer <-> offset conversions used by the backends: a round trip leaves the tape as it was
+            "rt" => {
+                let p = mem.current_ptr();
+                mem.set_current_ptr(p);
+                0
+            }
+            "checkp" => {
+                let p = mem.current_ptr().wrapping_offset(x1);
+                mem.check_ptr(p) as i64
+            }
             _ => -99,
         };
         let allocs = galloc::armed_count();
